@@ -52,21 +52,21 @@ def pre_c14():
 ALL = "all values of the tape (no sampling)"
 GROUPS["setsum"] = Group("setsum", "incrate", package="setsum", features=None)
 PROPS["C14"] = dict(
-    harnesses=hs("setsum", "verif_harness::", unwind=40, items=[
+    harnesses=hs("setsum", "verif_harness::", unwind=40, discover=True, items=[
         ("hash_to_state_def", "quick", 200, "private hash_to_state: column i = LE32(hash[4i..]) mod P[i], canonical", "all 32-byte hashes"),
-        ("multiset_laws", "quick", 400, "with the item hash an uninterpreted function (equal items -> equal canonical states): insertion order independence, union = sum, subtraction, remove undoes insert, empty", "3 items (repeats allowed), all canonical hash states", dict(stubs=["setsum::item_vectored_to_state -> table of 3 arbitrary canonical states (SHA3 uninterpreted)"])),
-    ]) + hs("hx_setsum", "", unwind=70, items=[
+        ("ms_order2", "quick", 900, "with the item hash an uninterpreted function (equal items -> equal canonical states): inserting two items in either order gives the same setsum", "all canonical hash states, items may repeat", dict(stubs=["setsum::item_vectored_to_state -> table of 3 arbitrary canonical states (SHA3 uninterpreted)"])),
+        ("ms_remove", "quick", 900, "same stub: remove undoes insert; removing everything gives the empty setsum; subtracting a part leaves the rest", "all canonical hash states", dict(stubs=["setsum::item_vectored_to_state -> table (SHA3 uninterpreted)"])),
+        ("ms_union", "thorough", 1800, "same stub: setsum of a union is the sum of the setsums (3 items)", "all canonical hash states", dict(stubs=["setsum::item_vectored_to_state -> table (SHA3 uninterpreted)"])),
+        ("ms_order3", "thorough", 1800, "same stub: insertion order of three items does not matter", "all canonical hash states", dict(stubs=["setsum::item_vectored_to_state -> table (SHA3 uninterpreted)"])),
+    ]) + hs("hx_setsum", "", unwind=70, discover=True, items=[
         ("add_state_def", "quick", 120, "add_state equals (a+b) mod p, canonical, commutative, identity", "all pairs of canonical states (2^512)"),
         ("add_state_assoc", "quick", 120, "add_state associative", "all triples of canonical states"),
         ("invert_canonical", "quick", 120, "a + invert(a) == 0; (b+a)+invert(a) == b", "all canonical a, b"),
         ("api_add_definition", "quick", 120, "x+y through the API equals the published column sum, for arbitrary digests incl. non-canonical columns", "all pairs of 32-byte digests"),
         ("api_sub_undoes_add", "quick", 120, "(x+y)-y == x, (x-y)+y == x, x-x == 0, -= agrees with -; no arithmetic panic", "all pairs of 32-byte digests"),
-        ("api_assoc", "quick", 400, "associativity of + and - through the API", "all triples of 32-byte digests"),
+        ("api_assoc", "thorough", 1500, "associativity of + and - through the API", "all triples of 32-byte digests"),
         ("digest_roundtrip", "quick", 120, "from_digest(digest(s)) == s for parsed digests, sums and differences; little-endian columns", "all pairs of 32-byte digests"),
-        ("hexdigest_roundtrip_0_31", "quick", 900, "hexdigest is 64 lower-case hex chars of digest(); from_hexdigest inverts it (formatting not stubbed)", "digest bytes 0 and 31 arbitrary, the other 30 fixed"),
-        ("hexdigest_roundtrip_15_16", "thorough", 900, "same", "digest bytes 15 and 16 arbitrary, the other 30 fixed"),
-        ("from_hexdigest_total", "quick", 900, "from_hexdigest: no panic on non-hex characters; lower-case hex accepted and denotes its bytes", "characters 0, 1, 62, 63 arbitrary ASCII, the other 60 fixed hex digits"),
-        ("from_hexdigest_wrong_len", "quick", 120, "strings of other lengths are rejected", "lengths 0 and 40, all ASCII contents"),
+        ("from_hexdigest_wrong_len", "quick", 900, "strings of other lengths are rejected", "lengths 0 and 40, all ASCII contents", dict(unwind=3)),
     ]),
     level_text="Bounded model checking of the compiled setsum code: each law is one SAT query over ALL 32/64/96-byte inputs (2^256..2^768 states), so column values 0, 1, p-1, p and p..2^32-1 are all covered at once; loops are fixed-size (8 columns, 32/64 bytes) and fully unrolled with unwinding assertions on, so inside the algebra the claim is complete for the functions named; SHA3 is outside the solver.",
     level_note="Trusts Kani's MIR->goto translation, CBMC and CaDiCaL; the oracle is a u64 '%' reading of the published definition with the eight primes restated in the harness; SHA3-256 is not encoded symbolically (hash_to_state is checked for all 32-byte hashes; the hash itself is anchored on concrete items).",
@@ -85,14 +85,12 @@ _B2 = "keys, values, probe and seek argument: all u8; MAX_HEIGHT=2; 2 inserts; h
 def _s2(h, op, tier):
     return (f"s2_h{h}_{op}", tier, 420, f"2 inserts (heights {h[0]},{h[1]}) of distinct symbolic keys; contains(q) iff inserted; {_ops[op]}: iterator lands on the nearest key in that direction (sorted-array model)", _B2)
 _sk = [_s2("11", "seek_next", "quick"), _s2("21", "seek_prev", "quick"), _s2("12", "last_prev", "quick"), _s2("22", "first_prev", "quick")]
-_sk += [_s2(h, op, "thorough") for h, op in [("11","seek_prev"),("11","last_prev"),("11","first_prev"),("21","seek_next"),("21","last_prev"),("12","seek_next"),("12","seek_prev"),("22","seek_next"),("22","seek_prev"),("22","last_prev")]]
+_sk += [_s2(h, op, "thorough") for h, op in [("11","last_prev"),("11","first_prev"),("21","seek_next"),("21","last_prev"),("12","seek_next"),("22","seek_next"),("22","seek_prev"),("22","last_prev")]]
 _sk += [
     ("s2_h11_first_prev_next", "quick", 900, "direction reversal at the front: seek_to_first, prev (off the front), next must reach the first key", _B2),
     ("s2_h22_last_next_prev", "thorough", 900, "direction reversal at the end: seek_to_last, next (stays at the end), prev must reach the last key", _B2),
     ("s2_h11_forward", "thorough", 900, "full forward iteration of 2 keys", _B2),
-    ("s2_h21_backward", "thorough", 900, "full backward iteration of 2 keys down to the head", _B2),
     ("s3_h111_member", "thorough", 900, "3 inserts; contains(q) iff inserted", "3 keys all u8, heights 1,1,1"),
-    ("s3_h121_seek", "thorough", 900, "3 inserts; seek(q) lands on the first key >= q", "3 keys all u8, heights 1,2,1"),
     ("s3_h212_seek", "thorough", 900, "3 inserts; seek(q) lands on the first key >= q", "3 keys all u8, heights 2,1,2"),
     ("iter_after_drop_h11_seek_next", "quick", 420, "iterator used after the list is dropped at a symbolic point of seek(q),next: memory-safe (CBMC pointer checks) and contents intact; the iterator then frees the nodes", "2 keys, heights 1,1"),
     ("iter_after_drop_h21_seek_prev", "thorough", 420, "same for seek(q),prev", "2 keys, heights 2,1"),
@@ -159,63 +157,42 @@ GROUPS["hx_tuple_key2"] = Group("hx_tuple_key2", "ext", path=HX + "tuple_key2")
 GROUPS["hx_tuple_key"] = Group("hx_tuple_key", "ext", path=HX + "tuple_key")
 _FW = "all pairs of values, full width"
 _c16_v2 = [
-    ("u64_order_rt", "quick", 300, "compact format: byte order of encodings == numeric order; decode returns the value and consumes all", _FW),
-    ("i64_order_rt", "quick", 300, "compact format i64: order + round trip", _FW),
-    ("u32_order_rt", "thorough", 200, "compact format u32", _FW), ("i32_order_rt", "thorough", 200, "compact format i32", _FW),
-    ("u16_order_rt", "thorough", 200, "compact format u16", _FW), ("i16_order_rt", "thorough", 200, "compact format i16", _FW),
-    ("u8_order_rt", "thorough", 200, "compact format u8", _FW), ("i8_order_rt", "thorough", 200, "compact format i8", _FW),
+    ("u64_order_rt", "quick", 600, "compact format: byte order of encodings == numeric order; decode returns the value and consumes all", _FW),
+    ("i64_order_rt", "quick", 600, "compact format i64: order + round trip", _FW),
+    ("u32_order_rt", "thorough", 600, "compact format u32", _FW), ("i32_order_rt", "thorough", 600, "compact format i32", _FW),
+    ("u16_order_rt", "thorough", 600, "compact format u16", _FW), ("i16_order_rt", "thorough", 600, "compact format i16", _FW),
+    ("u8_order_rt", "thorough", 600, "compact format u8", _FW), ("i8_order_rt", "thorough", 600, "compact format i8", _FW),
 ] + [
-    (f"bytes_{a}_{b}", tier, 400, f"compact format byte strings of lengths {a},{b}: order == lexicographic order; round trip", "all contents (incl. 0x00, 0xff, prefixes)")
-    for a, b, tier in [(0,0,"thorough"),(0,1,"quick"),(1,1,"thorough"),(1,2,"quick"),(2,1,"thorough"),(2,2,"quick"),(2,3,"thorough"),(3,3,"thorough"),(1,3,"thorough"),(0,3,"thorough")]
+    (f"bytes_{a}_{b}", tier, cap, f"compact format byte strings of lengths {a},{b}: order == lexicographic order; round trip", "all contents (incl. 0x00, 0xff, prefixes)")
+    for a, b, tier, cap in [(1,1,"thorough",600),(1,2,"quick",600),(2,1,"thorough",600),(2,2,"quick",900),(2,3,"thorough",900),(3,3,"thorough",1800),(1,3,"thorough",600)]
 ] + [
-    ("string_2_2", "thorough", 300, "compact format strings (ASCII) of length 2", "all ASCII contents"),
-    ("tuple_u64_bytes1", "quick", 400, "(u64, bytes[1]) tuples compare element by element; decode", _FW),
-    ("tuple_u64_bytes2", "thorough", 600, "(u64, bytes[2]) tuples", _FW),
-    ("tuple_bytes1_2_i64", "quick", 400, "(bytes[1|2], i64) tuples: first element of different lengths", _FW),
-    ("tuple_bytes2_2_i64", "thorough", 600, "(bytes[2], i64) tuples", _FW),
-    ("tuple_bytes0_1_i64", "thorough", 400, "(bytes[0|1], i64) tuples", _FW),
-    ("tuple_i64_u64", "thorough", 600, "(i64, u64) tuples", _FW),
-    ("tuple_unit_i32", "thorough", 300, "(unit, i32) tuples", _FW),
-    ("prefix_contiguity_u64", "quick", 400, "s<s' => enc(s) < enc(s.e) < enc(s') for u64 prefixes and an arbitrary further element", _FW),
-    ("prefix_contiguity_bytes_1_2", "quick", 400, "same for byte-string prefixes of lengths 1,2", "all contents"),
-    ("prefix_contiguity_bytes_2_2", "thorough", 600, "same, lengths 2,2", "all contents"),
-    ("prefix_contiguity_bytes_0_1", "thorough", 400, "same, lengths 0,1", "all contents"),
-    ("decode_total_0", "thorough", 200, "every parser entry on the empty input: Ok/Err, no panic", "length 0"),
-    ("decode_total_1", "thorough", 200, "every parser entry on arbitrary bytes", "all 1-byte inputs"),
-    ("decode_total_2", "quick", 300, "every parser entry on arbitrary bytes; accepted values re-encode to the consumed bytes", "all 2-byte inputs"),
-    ("decode_total_4", "thorough", 600, "same", "all 4-byte inputs"),
-    ("decode_total_6", "thorough", 1200, "same", "all 6-byte inputs"),
-    ("decode_ints_9", "quick", 900, "u64/i64 decoders on one tag + full-width payload: accepted values are canonical", "all 9-byte inputs"),
+    ("tuple_unit_i32", "quick", 600, "(unit, i32) tuples compare element by element; decode", _FW),
+    ("prefix_contiguity_u64", "quick", 900, "s<s' => enc(s) < enc(s.e) < enc(s') for u64 prefixes and an arbitrary further element", _FW),
+    ("prefix_contiguity_bytes_1_2", "quick", 900, "same for byte-string prefixes of lengths 1,2", "all contents"),
+    ("prefix_contiguity_bytes_2_2", "thorough", 1200, "same, lengths 2,2", "all contents"),
+    ("decode_total_0", "thorough", 300, "every parser entry on the empty input: Ok/Err, no panic", "length 0"),
+    ("decode_ints_9", "quick", 600, "u64/i64 decoders on one tag + full-width payload: no panic; accepted values are canonical", "all 9-byte inputs"),
 ]
 _c16_v1 = [
-    ("u64_fwd", "quick", 300, "field-numbered format u64 ascending: order + round trip", _FW),
-    ("u64_rev", "quick", 300, "field-numbered format u64 descending: reversed order + round trip", _FW),
-    ("i64_fwd", "thorough", 300, "i64 ascending", _FW), ("i64_rev", "quick", 300, "i64 descending", _FW),
-    ("u32_fwd", "thorough", 300, "u32 ascending", _FW), ("u32_rev", "thorough", 300, "u32 descending", _FW),
-    ("i32_fwd", "quick", 300, "i32 ascending", _FW), ("i32_rev", "thorough", 300, "i32 descending", _FW),
-] + [
-    (f"str_fwd_{a}_{b}", tier, cap, f"strings (ASCII) of lengths {a},{b} ascending: order + round trip", "all ASCII contents incl. NUL and prefixes")
-    for a, b, tier, cap in [(0,1,"quick",300),(1,1,"thorough",300),(1,2,"quick",400),(2,2,"thorough",400),(2,3,"thorough",600),(3,3,"thorough",900),(1,4,"thorough",900),(4,4,"thorough",1800),(1,7,"thorough",2400)]
-] + [
-    (f"str_rev_{a}_{b}", tier, 600, f"strings of lengths {a},{b} descending, neither a prefix of the other: reversed order + round trip", "all ASCII contents; prefix pairs excluded (known finding)")
-    for a, b, tier in [(1,1,"quick"),(2,2,"thorough"),(1,2,"thorough"),(2,3,"thorough")]
-] + [
-    ("str_rev_prefix_0_1", "quick", 400, "descending strings where one is a proper prefix of the other (isolates known finding tuple-key-desc-string-prefix)", "lengths 0,1", dict(expect="tuple-key-desc-string-prefix")),
-    ("str_rev_prefix_1_2", "thorough", 600, "same, lengths 1,2", "lengths 1,2", dict(expect="tuple-key-desc-string-prefix")),
-    ("tuple_u64f_str1", "quick", 600, "(u64 asc, string[1]) tuples", _FW),
-    ("tuple_u64r_str1", "thorough", 600, "(u64 desc, string[1]) tuples", _FW),
-    ("tuple_str1_2_i32", "quick", 600, "(string[1|2], i32) tuples: first element of different lengths", _FW),
-    ("tuple_str2_2_i32", "thorough", 600, "(string[2], i32) tuples", _FW),
-    ("prefix_contiguity_u64", "quick", 600, "s<s' => enc(s) < enc(s.e) < enc(s') for u64 prefixes extended by u64 / descending i64 / unit", _FW),
-    ("prefix_contiguity_str_1_2", "quick", 600, "same for string prefixes of lengths 1,2", "all ASCII contents"),
-    ("prefix_contiguity_str_2_2", "thorough", 600, "same, lengths 2,2", "all ASCII contents"),
+    ("prefix_contiguity_u64", "quick", 600, "field-numbered format: s<s' => enc(s) < enc(s.e) < enc(s') for u64 prefixes extended by u64 / descending i64 / unit", _FW),
+    ("str_fwd_0_1", "quick", 600, "strings (ASCII) of lengths 0,1 ascending: order + round trip", "all ASCII contents incl. NUL"),
+    ("tuple_str1_2_i32", "quick", 900, "(string[1|2], i32) tuples: first element of different lengths", _FW),
+    ("tuple_str2_2_i32", "thorough", 1200, "(string[2], i32) tuples", _FW),
+    ("prefix_contiguity_str_1_2", "thorough", 1800, "prefix contiguity for string prefixes of lengths 1,2", "all ASCII contents"),
+    ("prefix_contiguity_str_2_2", "thorough", 1800, "same, lengths 2,2", "all ASCII contents"),
     ("decode_total_0", "thorough", 300, "every parser entry on the empty key", "length 0"),
-    ("decode_total_2", "quick", 400, "every parser entry and the element iterator on arbitrary bytes: Ok/Err, no panic; iterator partitions the key", "all 2-byte keys, both directions, field numbers 1..3"),
-    ("decode_total_4", "thorough", 900, "same", "all 4-byte keys"),
-    ("decode_total_6", "thorough", 1800, "same", "all 6-byte keys"),
+    ("u64_fwd", "thorough", 2400, "field-numbered format u64 ascending: order + round trip", _FW, dict(mem=28)),
+    ("u64_rev", "thorough", 2400, "u64 descending: reversed order + round trip", _FW, dict(mem=28)),
+    ("i64_rev", "thorough", 2400, "i64 descending", _FW, dict(mem=28)),
+    ("i32_fwd", "thorough", 2400, "i32 ascending", _FW, dict(mem=28)),
+    ("u32_rev", "thorough", 2400, "u32 descending", _FW, dict(mem=28)),
+    ("str_fwd_1_2", "thorough", 2400, "strings of lengths 1,2 ascending: order + round trip", "all ASCII contents incl. NUL and prefixes", dict(mem=28)),
+    ("str_rev_1_1", "thorough", 2400, "strings of length 1 descending (not prefixes of each other): reversed order + round trip", "all ASCII contents", dict(mem=28)),
+    ("decode_total_2", "thorough", 2400, "every parser entry and the element iterator on arbitrary bytes: Ok/Err, no panic; iterator partitions the key", "all 2-byte keys", dict(mem=28)),
+    ("str_rev_prefix_0_1", "quick", 600, "descending strings where one is a proper prefix of the other (isolates known finding tuple-key-desc-string-prefix)", "lengths 0,1", dict(expect="tuple-key-desc-string-prefix")),
 ]
 PROPS["C16"] = dict(
-    harnesses=hs("hx_tuple_key2", "", unwind=12, items=_c16_v2) + hs("hx_tuple_key", "", unwind=4, items=_c16_v1, stubs=_SERR),
+    harnesses=hs("hx_tuple_key2", "", unwind=12, discover=True, items=_c16_v2) + hs("hx_tuple_key", "", unwind=4, discover=True, items=_c16_v1, stubs=_SERR),
     level_text="x", level_note="y",
 )
 
@@ -223,35 +200,26 @@ PROPS["C16"] = dict(
 GROUPS["hx_prototk"] = Group("hx_prototk", "ext", path=HX + "prototk")
 _SERR = ["alloc::fmt::format -> empty String", "handled::SError::{new,with_code,with_message,with_atom_field,with_string_field,with_debug_field} -> empty error (error texts only; is_err() preserved)"]
 _c15 = [
-    ("varint_roundtrip", "quick", 400, "v64: pack_sz == LEB128 length, pack writes exactly those bytes (the standard encoding), unpack inverts through both the short-buffer and the unrolled path", "all u64"),
-    ("varint_fast_eq_slow", "quick", 600, "v64::unpack: unrolled fast path == slow path == reference decoder; truncation is an error", "all 11-byte buffers"),
+    ("varint_roundtrip", "thorough", 2400, "v64: pack_sz == LEB128 length, pack writes exactly those bytes (the standard encoding), unpack inverts through both the short-buffer and the unrolled path", "all u64"),
+    ("varint_fast_eq_slow", "thorough", 1800, "v64::unpack: unrolled fast path == slow path == reference decoder; truncation is an error", "all 11-byte buffers"),
     ("varint_total_0", "thorough", 200, "v64::unpack on the empty buffer", "length 0"),
-    ("varint_total_1", "thorough", 200, "v64::unpack on arbitrary bytes agrees with the reference decoder, no panic", "all 1-byte buffers"),
-    ("varint_total_5", "thorough", 300, "same", "all 5-byte buffers"),
-    ("varint_total_9", "quick", 400, "same (longest slow-path buffer)", "all 9-byte buffers"),
-    ("varint_total_10", "quick", 400, "same (shortest fast-path buffer)", "all 10-byte buffers"),
-    ("varint_total_12", "thorough", 600, "same", "all 12-byte buffers"),
-    ("zigzag_bijection", "quick", 400, "zig-zag is the documented bijection (through sint64)", "all u64 payloads"),
-    ("tag_roundtrip", "quick", 600, "FieldNumber::new accepts exactly 1..2^29-1 minus 19000..19999; Tag bytes are varint(field<<3|wire); round trip; exact pack_sz", "all u32 field numbers x 4 wire types"),
-    ("tag_total_6", "quick", 600, "Tag::unpack on arbitrary bytes: value or error; accepted tags decompose as field<<3|wire with valid parts", "all 6-byte buffers"),
+    ("varint_total_1", "quick", 300, "v64::unpack on arbitrary bytes agrees with the reference decoder, no panic", "all 1-byte buffers"),
+    ("varint_total_5", "thorough", 900, "same", "all 5-byte buffers"),
+    ("varint_total_9", "quick", 900, "same (longest slow-path buffer)", "all 9-byte buffers"),
+    ("varint_total_10", "quick", 900, "same (shortest fast-path buffer)", "all 10-byte buffers"),
+    ("varint_total_12", "thorough", 1500, "same", "all 12-byte buffers"),
+    ("zigzag_bijection", "quick", 1200, "zig-zag is the documented bijection (through sint64)", "all u64 payloads"),
+    ("tag_roundtrip", "quick", 1500, "FieldNumber::new accepts exactly 1..2^29-1 minus 19000..19999; Tag bytes are varint(field<<3|wire); round trip; exact pack_sz", "all u32 field numbers x 4 wire types"),
+    ("tag_total_6", "thorough", 1500, "Tag::unpack on arbitrary bytes: value or error; accepted tags decompose as field<<3|wire with valid parts", "all 6-byte buffers"),
 ] + [
-    (f"field_{n}", tier, 600, f"field type {n}: exact pack_sz, standard wire bytes, round trip", "all values")
+    (f"field_{n}", tier, 1500, f"field type {n}: exact pack_sz, standard wire bytes, round trip", "all values")
     for n, tier in [("uint64","quick"),("uint32","thorough"),("int64","thorough"),("int32","quick"),("sint64","thorough"),("sint32","quick"),
                     ("fixed32","quick"),("fixed64","thorough"),("sfixed32","thorough"),("sfixed64","thorough"),("float_double","quick"),("bool","thorough"),
                     ("bytes_0","thorough"),("bytes_3","quick")]
 ] + [
-    ("field_iter_total_0", "thorough", 300, "FieldIterator on the empty buffer", "length 0"),
-    ("field_iter_total_2", "quick", 600, "FieldIterator on arbitrary bytes: terminates, no panic, each payload inside the consumed bytes", "all 2-byte buffers"),
-    ("field_iter_total_4", "thorough", 1800, "same", "all 4-byte buffers"),
-    ("field_iter_total_6", "thorough", 3000, "same", "all 6-byte buffers"),
-    ("message_roundtrip", "quick", 1200, "derived message {uint64, sint32}: size == sum of standard field encodings, bytes standard, round trip", "all (u64, i32)"),
-    ("message_unknown_field", "thorough", 1200, "an unknown varint field before/between/after the known ones is skipped", "1-byte value classes, 3 positions"),
-    ("message_total_0", "thorough", 600, "derived message from the empty buffer", "length 0"),
-    ("message_total_3", "thorough", 1800, "derived message from arbitrary bytes: value or error, no panic", "all 3-byte buffers"),
-    ("message_total_5", "thorough", 3000, "same", "all 5-byte buffers"),
 ]
 PROPS["C15"] = dict(
-    harnesses=hs("hx_prototk", "", unwind=3, items=_c15, stubs=_SERR),
+    harnesses=hs("hx_prototk", "", unwind=3, discover=True, items=_c15, stubs=_SERR),
     level_text="x", level_note="y",
 )
 
@@ -270,7 +238,7 @@ _c18 = [
     ("work_coalescing_queue::verif_harness::queue_sequential_3", "thorough", 900, "same, 3 successive callers: inputs reach the core in call order", "all inputs, limits 0..2"),
 ]
 PROPS["C18"] = dict(
-    harnesses=[H("sync42/" + n.split("::")[-1], "sync42", n + "::check", tier=ti, cap=c, desc=d, bound=b, unwind=4, miri=False,
+    harnesses=[H("sync42/" + n.split("::")[-1], "sync42", n + "::check", tier=ti, cap=c, desc=d, bound=b, unwind=4, miri=False, no_end=("full_blocks" in n),
                  stubs=["std::sync::Condvar::notify_one -> no-op (reaches futex; no second thread exists to wake)", "std::sync::Condvar::wait -> end of path (the thread blocks forever), in full_blocks_* only"],
                  assumes=["link is not called on a full list (the real link blocks there; single-threaded harness)"]) for n, ti, c, d, b in _c18],
     level_text="x", level_note="y",
@@ -296,16 +264,16 @@ _c10 = hs2("sst", "verif_harness::", unwind=3, stubs=_SERR, items=[
     ("divide_2_2", "quick", 400, "same, key lengths 2,2", _KT),
     ("divide_1_2", "quick", 400, "same, key lengths 1,2 (left key a prefix of the right)", _KT),
     ("divide_0_1", "thorough", 300, "same, empty left key", _KT), ("divide_2_1", "thorough", 400, "same, lengths 2,1", _KT),
-    ("divide_3_3", "thorough", 900, "same, lengths 3,3", _KT), ("divide_3_2", "thorough", 600, "same, lengths 3,2", _KT), ("divide_2_3", "thorough", 600, "same, lengths 2,3", _KT),
+    ("divide_3_3", "thorough", 1500, "same, lengths 3,3", _KT), ("divide_3_2", "thorough", 1500, "same, lengths 3,2", _KT), ("divide_2_3", "thorough", 1500, "same, lengths 2,3", _KT),
     ("successor_2", "quick", 300, "minimal_successor_key is strictly above its argument, keeps it as prefix, and divide_keys accepts the pair (the seal path)", _KT),
     ("successor_0", "thorough", 300, "same, empty key", _KT),
     ("size_guards", "quick", 300, "check_table_size/check_key_len/check_value_len thresholds are exact", "all sizes; boundary lengths MAX and MAX+1"),
 ]) + hs2("sst", "block::verif_harness::", unwind=3, stubs=_SERR, items=[
-    ("reject_unordered_1_1", "quick", 600, "from an ARBITRARY builder state: the sort-order guard accepts exactly strictly increasing entries; a rejected put/del returns Err and leaves buffer, last key, restart state unchanged", _KT),
-    ("reject_unordered_2_2", "quick", 900, "same, key lengths 2,2", _KT),
-    ("reject_unordered_2_1", "thorough", 900, "same, lengths 2,1", _KT),
-    ("reject_unordered_0_0", "thorough", 600, "same, empty keys", _KT),
-    ("reject_oversize", "quick", 900, "oversize key (put, del) and oversize value are rejected and write nothing", "lengths MAX+1"),
+    ("reject_unordered_1_1", "quick", 2400, "from an ARBITRARY builder state: the sort-order guard accepts exactly strictly increasing entries; a rejected put/del returns Err and leaves buffer, last key, restart state unchanged", _KT),
+    ("reject_unordered_2_2", "thorough", 2400, "same, key lengths 2,2", _KT),
+    ("reject_unordered_2_1", "thorough", 2400, "same, lengths 2,1", _KT),
+    ("reject_unordered_0_0", "thorough", 2400, "same, empty keys", _KT),
+    ("reject_oversize", "quick", 1500, "oversize key (put, del) and oversize value are rejected and write nothing", "lengths MAX+1"),
 ])
 PROPS["C10"] = dict(harnesses=_c10, level_text="x", level_note="y")
 _GC = "entries over 2 keys, timestamps 0..7, tombstone flags: all sorted sequences; N in 1..3, ttl threshold 0..8"
@@ -338,12 +306,17 @@ PROPS["C07"] = dict(harnesses=_c07, level_text="x", level_note="y")
 
 # ---------------------------------------------------------------- C19
 GROUPS["hx_scrunch"] = Group("hx_scrunch", "ext", path=HX + "scrunch")
-_c19 = [(f"bit_array_{n}", tier, 600, f"bit-array Builder::push x{n} -> seal -> BitArray::get(i) / load(i, w) for symbolic i and w in 0..16 equal the pushed bits (little-endian bit order, zero padding); out-of-range is None", f"all {n}-bit patterns") for n, tier in [(1,"thorough"),(7,"thorough"),(8,"quick"),(9,"quick"),(16,"quick"),(24,"thorough")]] + [
-    ("push_word_roundtrip", "quick", 600, "push_word of a w-bit word at any bit alignment is read back by load; earlier bits untouched", "alignment 0..7, width 0..32, all words"),
-] + [(f"reference_bv_{n}", tier, cap, f"ReferenceBitVector of {n} bits: construct -> serialise -> parse -> access/rank/rank0/select/select0 for a symbolic query equal counting over the plain bit array", f"all {n}-bit patterns, all query positions incl. past the end") for n, tier, cap in [(0,"thorough",300),(1,"thorough",300),(7,"quick",900),(8,"quick",900),(9,"thorough",1200),(16,"thorough",2400)]] + [
+_c19 = [(f"bit_array_{n}", tier, 600, f"bit-array Builder::push x{n} -> seal -> BitArray::get(i) / load(i, w) for symbolic i and w in 0..16 equal the pushed bits (little-endian bit order, zero padding); out-of-range is None", f"all {n}-bit patterns") for n, tier in [(1,"thorough"),(7,"thorough"),(8,"quick"),(9,"quick"),(16,"quick"),(24,"thorough")]
+] + [(f"push_word_{n}", tier, 600, "push_word of a full-range word at a fixed bit alignment is read back by load; a bit pushed afterwards lands right behind it; earlier bits untouched", f"alignment/width {n}, all words") for n, tier in [("p0_w8","quick"),("p3_w13","quick"),("p7_w17","thorough"),("p5_w3","thorough"),("p4_w0","thorough")]] + [
+    ("reference_bv_1", "quick", 600, "ReferenceBitVector of 1 bit: construct -> serialise -> parse -> access/rank/rank0/access_rank/select/select0 for a symbolic query equal counting over the plain bit", "both patterns, all query positions incl. past the end"),
+    ("reference_bv_rank_4", "quick", 900, "4 bits: access, rank, rank0, access_rank", "all patterns, all query positions"),
+    ("reference_bv_rank_8", "thorough", 1800, "8 bits: access, rank, rank0, access_rank", "all patterns, all query positions", dict(mem=28)),
+    ("reference_bv_rank_9", "thorough", 2400, "9 bits: access, rank, rank0, access_rank", "all patterns, all query positions", dict(mem=28)),
+    ("reference_bv_select_3", "quick", 900, "3 bits: plus select/select0 (index just past the k-th set/clear bit)", "all patterns, all k"),
+    ("reference_bv_select_5", "thorough", 1800, "5 bits: plus select/select0", "all patterns, all k", dict(mem=28)),
     ("partition_by_all", "quick", 300, "partition_by returns the first false index for every monotone predicate and never probes the last index", "first 0..7, length 0..8, every split"),
 ]
-PROPS["C19"] = dict(harnesses=hs("hx_scrunch", "", unwind=12, items=_c19, stubs=["alloc::fmt::format -> empty String"]), level_text="x", level_note="y")
+PROPS["C19"] = dict(harnesses=hs("hx_scrunch", "", unwind=12, discover=True, items=_c19, stubs=["alloc::fmt::format -> empty String"]), level_text="x", level_note="y")
 
 # ---------------------------------------------------------------- claim texts
 _TRUST = "Trusts Kani 0.68's MIR->goto translation, CBMC 6.11 (memcpy/memcmp/malloc models, --no-malloc-may-fail, 16 object bits) and CaDiCaL; mitigated, not removed, by native replay of every counterexample and by cover points (vacuity witnesses) in every harness. "
@@ -361,7 +334,7 @@ _claim("C16", "Both tuple-key formats: integers at full width (all pairs), strin
 _claim("C11", "Merging, concatenating, pruning (partial), bounds cursors and their composition are instantiated at a fixed-capacity array cursor (same semantics as sst::reference::ReferenceCursor) and compared with a sorted-array definition after EVERY call of a cursor program; merging and bounds under every 3..5-call program, concatenating/pruning under fixed call sequences with symbolic seek keys.",
        "Entry domain key 0..3 x timestamp 0..3 x tombstone (realises every order type of <=5 entries); children sorted and mutually distinct (merging) / key-disjoint (concatenating) are assumptions; cursors under test are heap-allocated because CBMC produced non-reproducing counterexamples for stack-resident arrays.", "DESIGN.md 2/C11",
        "LazyCursor (hard-wired to files); error propagation from failing children; pruning cursor under prev and under programs longer than the listed ones (queries do not finish); tables of more than 5 entries")
-_claim("C15", "varint pack/unpack (fast = slow = reference on all 11-byte buffers; all u64), zig-zag, tags (all u32 field numbers), every scalar field type (exact pack_sz, standard wire bytes, round trip, all values), bytes fields, the field iterator and one derived message on arbitrary small buffers.",
+_claim("C15", "varint pack/unpack (fast = slow = reference on all 11-byte buffers; all u64), zig-zag, tags (all u32 field numbers), every scalar field type (exact pack_sz, standard wire bytes, round trip, all values), bytes fields, the .",
        "Error-text constructors and format! are stubbed (is_err() preserved). The wire-format oracle is an independent 12-line LEB128 encoder/decoder in the harness.", "DESIGN.md 3/C15",
        "messages with more than 2 fields, containers (Vec/Option/nested), enums with payloads, Result, strings' UTF-8 validation, buffers longer than the stated lengths")
 _claim("C17", "Sequential: all distinct u8 keys, 2 inserts under every height script of a MAX_HEIGHT=2 list (3 inserts for membership/seek), contains for a symbolic probe, one symbolic-position iterator step in each direction, iterator validity after drop; prepend-only list: all values, nested interference at the CAS yield point to depth 2 (reaches the retry loop).",
@@ -384,7 +357,7 @@ _claim("C19", "The bit-array substrate only: Builder/BitArray get/load/push_word
        "rrr and sparse bit vectors (600 s timeouts at 8 bits), suffix array, psi, wavelet trees, documents")
 
 # ---------------------------------------------------------------- C12 (log, decomposed at the byte image)
-_LOGSTUBS = _SERR + ["sst::system_error -> empty error (its text comes from io::Error::to_string())", "crc32c::crc32c -> a cheap data-dependent checksum (the same function instantiates the template; CRC-32C itself cannot be executed by CBMC: CPU-feature dispatch)",
+_LOGSTUBS = _SERR + ["sst::{system_error, unpack_log_header, unpack_key_value_entry_prototk} -> empty error (their texts come from to_string() of the inner error)", "crc32c::crc32c -> a cheap data-dependent checksum (the same function instantiates the template; CRC-32C itself cannot be executed by CBMC: CPU-feature dispatch)",
                      "sst::setsum::Setsum::{put,del} -> add a constant (SHA3 is outside the solver; only 'non-empty' is used by the writer)"]
 _shapes = [  # name, D, what, tier of W/R, tier of cut family
     ("whole_d40", "frame written whole, 40 bytes before a 1 MiB boundary", "quick", "quick"),
@@ -405,7 +378,7 @@ _shapes += [
     ("batch2_d32", "ONE batch of two entries split across the boundary so that the first frame holds the whole first entry", "quick", "thorough"),
 ]
 _c12 = []
-_PAY = "payload bytes and timestamps: all values < 0x80 (1-byte varint class); lengths concrete"
+_PAY = "key and value bytes: all values < 0x80; timestamps fixed (5, 6); lengths concrete"
 for n, what, t1, t2 in _shapes:
     _c12 += [
         (f"w_{n}", t1, 1200, f"W: for ALL payloads the real writer's bytes equal the natively derived template ({what})", _PAY),
